@@ -114,7 +114,7 @@ static void check_eval_T(const EvalC &c, vf::Obs &o) {
         // allowance: 64 eps * sum_k |c_k| |x-xm|^k  (+ tiny absolute for subnormal-free inputs)
         R xm = (pts[j] + pts[j + 1]) / 2, dx = absR<T>(x - xm), pw(1), S(0);
         for (size_t k = 0; k <= order; k++) { S += absR<T>(c.s.coeff(order, j - (size_t)s, k)) * pw; pw *= dx; }
-        if (absR<T>(got - want) <= 64 * eps_of<T>() * S) match = true;
+        if (absR<T>(got - want) <= (order > 6 ? 128 : 64) * eps_of<T>() * S) match = true;  // Horner of degree p: ~2p eps
       }
     }
     VCHECK(o, match, "value " << rstr(got) << " at x=" << rstr(x) << " (" << kinds[q] << ") is not the value of an adjacent stored piece; expected one of:" << exp);
@@ -127,6 +127,7 @@ static void check_eval_T(const EvalC &c, vf::Obs &o) {
 #define PART(k) (VERIF_PART == -1 || VERIF_PART == (k))
 template <class T>
 static void dispatch(const EvalC &c, vf::Obs &o) {
+  if (c.order >= 7) { check_eval_T<T, 10>(c, o); return; }  // order 10: what the shipped examples use
   with_order<6>((size_t)std::min<i64>(std::max<i64>(c.order, 0), 6), [&](auto O) { check_eval_T<T, decltype(O)::value>(c, o); });
 }
 void eval_q(const EvalC &c, vf::Obs &o);
@@ -163,9 +164,9 @@ int main(int argc, char **argv) {
       c.type = exact_only ? 0 : pick(1, 3);
       GridOpt go; go.dyadic = !exact_only; go.max_abs = exact_only ? 64 : 8;
       c.g = gen_grid(go);
-      c.order = pick(0, 6);
+      c.order = pick(0, 7);
       CoefOpt co; co.dyadic = !exact_only;
-      c.s = gen_spline(c.g.n(), (size_t)c.order, -1, co);
+      c.s = gen_spline(c.g.n(), (size_t)(c.order >= 7 ? 10 : c.order), -1, co);
       c.fden = one_of<i64>({2, 3, 4, 7, 10, 1000});
       c.fnum = pick(1, c.fden - 1);
       return c;
